@@ -116,6 +116,101 @@ fn c18_interrupt_is_never_lost() {
     }
 }
 
+// ---------------------------------------------------------------------------------------------
+// the other direction: the signal handler is preempted BETWEEN ITS STATEMENTS by a poll of the accept loop
+// (scheduling points 1 and 4 sit between the statements of the handler). Flat schedule, no re-entrancy:
+//   poll #1 (no signal yet) ; handler starts ; [at point 1 or at point 4: the executor polls the task if it is
+//   runnable] ; handler finishes ; then the executor model decides: runnable -> poll must stop the loop,
+//   not runnable -> the interrupt is lost.
+// In this harness polls are not preempted by the handler (that is `c18_interrupt_is_never_lost`).
+// ---------------------------------------------------------------------------------------------
+mod preempted_handler {
+    use super::*;
+    static mut P_HANDLER: Option<Box<dyn FnMut() + Send>> = None;
+    static mut P_WAKES: usize = 0;
+    static mut P_LAST_POLL_WAKES: usize = 0;
+    static mut P_DONE: bool = false;
+    static mut P_PREEMPT_AT: u8 = 0;
+    static mut P_IN_HANDLER: bool = false;
+    static mut P_POLL_FN: Option<*mut dyn FnMut() -> Poll<Option<()>>> = None;
+
+    pub fn set_handler_stub<F: FnMut() + 'static + Send>(f: F) -> Result<(), ctrlc::Error> {
+        unsafe { P_HANDLER = Some(Box::new(f)); }
+        Ok(())
+    }
+    fn raw() -> RawWaker {
+        fn clone(_: *const ()) -> RawWaker { raw() }
+        fn wake(_: *const ()) { unsafe { P_WAKES += 1; } }
+        fn wake_by_ref(_: *const ()) { unsafe { P_WAKES += 1; } }
+        fn drop(_: *const ()) {}
+        static VT: RawWakerVTable = RawWakerVTable::new(clone, wake, wake_by_ref, drop);
+        RawWaker::new(std::ptr::null(), &VT)
+    }
+    fn do_poll(handler_started: bool) {
+        unsafe {
+            P_LAST_POLL_WAKES = P_WAKES;
+            let r = (*P_POLL_FN.unwrap())();
+            if let Poll::Ready(x) = r {
+                assert!(x.is_none(), "C18: the never-ready listener produced a connection");
+                assert!(handler_started, "C18: accept loop stopped although no interrupt was received");
+                P_DONE = true;
+            }
+        }
+    }
+    fn sched(point: u8) -> bool {
+        // points 2 and 3 (inside poll): nothing happens there in this harness
+        if point == 1 || point == 4 {
+            unsafe {
+                if P_IN_HANDLER && P_PREEMPT_AT == point && !P_DONE && P_WAKES > P_LAST_POLL_WAKES {
+                    do_poll(true);
+                }
+            }
+        }
+        false
+    }
+
+    pub fn run() {
+        unsafe { s::SCHED = Some(sched); }
+        let c = s::ctrlc_new();
+        let fut = s::until_interrupt(&c, Never);
+        let mut fut = std::pin::pin!(fut);
+        let w = unsafe { Waker::from_raw(raw()) };
+        let mut cx = Context::from_waker(&w);
+        let mut poll_once = || fut.as_mut().poll(&mut cx);
+        {
+            let p: &mut dyn FnMut() -> Poll<Option<()>> = &mut poll_once;
+            unsafe { P_POLL_FN = Some(std::mem::transmute::<&mut dyn FnMut() -> Poll<Option<()>>, *mut (dyn FnMut() -> Poll<Option<()>> + 'static)>(p)); }
+        }
+        // the accept loop is polled once and goes to sleep with its waker published
+        do_poll(false);
+        assert!(unsafe { !P_DONE }, "C18: accept loop stopped although no interrupt was received");
+        // the signal arrives; where the handler is preempted is the solver's choice (0 = nowhere)
+        let at: u8 = kani::any();
+        kani::assume(at == 0 || at == 1 || at == 4);
+        unsafe {
+            P_PREEMPT_AT = at;
+            P_IN_HANDLER = true;
+            if let Some(h) = P_HANDLER.as_mut() { h(); }
+            P_IN_HANDLER = false;
+        }
+        kani::cover!(at == 4, "preempted after the wake");
+        kani::cover!(at == 0, "not preempted");
+        // the handler has completed: the task must stop, now or at the poll its outstanding wake causes
+        if unsafe { !P_DONE } {
+            assert!(unsafe { P_WAKES > P_LAST_POLL_WAKES },
+                "C18: lost wake-up — the handler has completed, the accept loop is Pending and nobody will wake it");
+            do_poll(true);
+            assert!(unsafe { P_DONE }, "C18: accept loop does not stop although the interrupt was delivered completely");
+        }
+    }
+}
+
+// @verif prop=C18 tier=quick timeout=900 mem=10 replay=none bounds="one signal whose handler is preempted after its first or after its second statement by a poll of the (woken) accept loop; 3 polls at most"
+#[kani::proof]
+#[kani::stub(ctrlc::set_handler, preempted_handler::set_handler_stub)]
+#[kani::unwind(4)]
+fn c18_handler_preempted_by_poll() { preempted_handler::run() }
+
 // @verif prop=C18 tier=quick replay=none bounds="<= 3 sessions; add/drop/poll in symbolic order"
 #[kani::proof]
 #[kani::unwind(8)]
